@@ -276,6 +276,38 @@ func (g *IG) reachFrom(starts []int, stop func(ssa.Instruction) bool) []bool {
 	return seen
 }
 
+// reachFromE is reachFrom with an edge filter: the k-th successor edge of a block terminator is followed only if edgeOK allows it.
+func (g *IG) reachFromE(starts []int, stop func(ssa.Instruction) bool, edgeOK func(term ssa.Instruction, k int) bool) []bool {
+	seen := make([]bool, len(g.instrs))
+	var stack []int
+	for _, s := range starts {
+		if !seen[s] {
+			seen[s] = true
+			stack = append(stack, s)
+		}
+	}
+	for len(stack) > 0 {
+		n := stack[len(stack)-1]
+		stack = stack[:len(stack)-1]
+		in := g.instrs[n]
+		if stop != nil && stop(in) {
+			continue
+		}
+		b := in.Block()
+		isTerm := b.Instrs[len(b.Instrs)-1] == in
+		for k, m := range g.succ[n] {
+			if isTerm && edgeOK != nil && !edgeOK(in, k) {
+				continue
+			}
+			if !seen[m] {
+				seen[m] = true
+				stack = append(stack, m)
+			}
+		}
+	}
+	return seen
+}
+
 // after returns the successor nodes of an instruction.
 func (g *IG) after(in ssa.Instruction) []int { return g.succ[g.idx[in]] }
 
@@ -467,3 +499,186 @@ func derefType(t types.Type) types.Type {
 }
 
 func typeString(t types.Type) string { return shortName(t.String()) }
+
+// sameVal: a and b denote the same value: identical SSA values, or loads of the same field of the same base
+// in a function that never stores to that field (go/ssa performs no common subexpression elimination).
+func sameVal(a, b ssa.Value) bool {
+	if a == b {
+		return true
+	}
+	ua, ok1 := a.(*ssa.UnOp)
+	ub, ok2 := b.(*ssa.UnOp)
+	if !ok1 || !ok2 || ua.Op != token.MUL || ub.Op != token.MUL {
+		return false
+	}
+	fa, ok1 := ua.X.(*ssa.FieldAddr)
+	fb, ok2 := ub.X.(*ssa.FieldAddr)
+	if !ok1 || !ok2 || fieldOfAddr(fa) != fieldOfAddr(fb) || !sameVal(fa.X, fb.X) {
+		return false
+	}
+	f := fieldOfAddr(fa)
+	stored := false
+	for _, fn := range funcsWithAnon(ua.Parent()) {
+		eachInstr(fn, func(in ssa.Instruction) {
+			if st, ok := in.(*ssa.Store); ok {
+				if x, ok := st.Addr.(*ssa.FieldAddr); ok && fieldOfAddr(x) == f {
+					// a store into an object freshly allocated in this function cannot alias a different base
+					if al, isAlloc := rootOfAddr(x.X).(*ssa.Alloc); isAlloc && rootOfAddr(fa.X) != ssa.Value(al) {
+						if _, isParam := rootOfAddr(fa.X).(*ssa.Parameter); isParam {
+							return
+						}
+					}
+					stored = true
+				}
+			}
+		})
+	}
+	return !stored
+}
+
+// ---------------------------------------------------------------- path-sensitive reachability over boolean phis
+
+// boolEnv tracks, along one path, the value of boolean phi nodes: 0 unknown, 1 false, 2 true.
+type boolEnv map[*ssa.Phi]int8
+
+func (e boolEnv) key() string {
+	var ks []string
+	for p, v := range e {
+		if v != 0 {
+			ks = append(ks, fmt.Sprintf("%s=%d", p.Name(), v))
+		}
+	}
+	sort.Strings(ks)
+	return strings.Join(ks, ",")
+}
+
+func evalBool(v ssa.Value, env boolEnv) int8 {
+	switch x := v.(type) {
+	case *ssa.Const:
+		if x.Value != nil {
+			if x.Value.String() == "true" {
+				return 2
+			}
+			if x.Value.String() == "false" {
+				return 1
+			}
+		}
+	case *ssa.Phi:
+		return env[x]
+	case *ssa.UnOp:
+		if x.Op == token.NOT {
+			switch evalBool(x.X, env) {
+			case 1:
+				return 2
+			case 2:
+				return 1
+			}
+		}
+	}
+	return 0
+}
+
+func isBoolType(t types.Type) bool {
+	b, ok := t.Underlying().(*types.Basic)
+	return ok && b.Kind() == types.Bool
+}
+
+// reachPS explores the instruction graph from starts, tracking the values of boolean phis along each path and pruning
+// branch edges that contradict them. stop ends a path (the node is still reported as reached). edgeOK may prune further
+// and receives the environment. It returns the set of reached instructions.
+func (g *IG) reachPS(starts []int, stop func(ssa.Instruction) bool, edgeOK func(term ssa.Instruction, k int, env boolEnv) bool) []bool {
+	type st struct {
+		n   int
+		env boolEnv
+	}
+	reached := make([]bool, len(g.instrs))
+	seen := map[string]bool{}
+	var stack []st
+	for _, s := range starts {
+		stack = append(stack, st{s, boolEnv{}})
+	}
+	for len(stack) > 0 {
+		cur := stack[len(stack)-1]
+		stack = stack[:len(stack)-1]
+		k := fmt.Sprintf("%d|%s", cur.n, cur.env.key())
+		if seen[k] {
+			continue
+		}
+		seen[k] = true
+		reached[cur.n] = true
+		in := g.instrs[cur.n]
+		if stop != nil && stop(in) {
+			continue
+		}
+		b := in.Block()
+		isTerm := b.Instrs[len(b.Instrs)-1] == in
+		if !isTerm {
+			for _, m := range g.succ[cur.n] {
+				stack = append(stack, st{m, cur.env})
+			}
+			continue
+		}
+		for ki, m := range g.succ[cur.n] {
+			if iff, ok := in.(*ssa.If); ok {
+				if v := evalBool(iff.Cond, cur.env); (v == 2 && ki == 1) || (v == 1 && ki == 0) {
+					continue
+				}
+			}
+			if edgeOK != nil && !edgeOK(in, ki, cur.env) {
+				continue
+			}
+			// evaluate the phis of the successor block simultaneously
+			succ := b.Succs[ki]
+			nenv := boolEnv{}
+			for p, v := range cur.env {
+				nenv[p] = v
+			}
+			predIdx := -1
+			for i, p := range succ.Preds {
+				if p == b {
+					predIdx = i
+				}
+			}
+			for _, si := range succ.Instrs {
+				phi, ok := si.(*ssa.Phi)
+				if !ok {
+					break
+				}
+				if !isBoolType(phi.Type()) || predIdx < 0 {
+					continue
+				}
+				nenv[phi] = evalBool(phi.Edges[predIdx], cur.env)
+			}
+			// a branch on a phi teaches its value on the taken edge
+			if iff, ok := in.(*ssa.If); ok {
+				c := iff.Cond
+				neg := false
+				if u, ok := c.(*ssa.UnOp); ok && u.Op == token.NOT {
+					c, neg = u.X, true
+				}
+				if phi, ok := c.(*ssa.Phi); ok && isBoolType(phi.Type()) {
+					truth := ki == 0
+					if neg {
+						truth = !truth
+					}
+					// only if the successor did not just redefine it
+					redefined := false
+					for _, si := range succ.Instrs {
+						if si == ssa.Instruction(phi) {
+							redefined = true
+						}
+					}
+					if !redefined {
+						if truth {
+							nenv[phi] = 2
+						} else {
+							nenv[phi] = 1
+						}
+					}
+				}
+			}
+			stack = append(stack, st{m, nenv})
+		}
+	}
+	return reached
+}
